@@ -19,7 +19,7 @@ use std::thread;
 use std::time::Duration;
 
 use data_encoding::{Encoding, HEXLOWER_PERMISSIVE};
-use yaml_rust::YamlLoader;
+use yaml_rust::{Yaml, YamlLoader};
 
 use crate::config::ServerConfig;
 use crate::config::{DEFAULT_BATCH_SIZE, DEFAULT_STATUS_INTERVAL};
@@ -96,7 +96,11 @@ impl FileConfig {
                     config.batch_size = Self::int_in_range(key.as_str().unwrap(), value.as_i64().unwrap())?
                 }
                 "seed" => {
-                    let val = value.as_str().unwrap().to_string();
+                    // a hex value made only of decimal digits is typed by YAML as a number
+                    let val = match value {
+                        Yaml::Real(text) => text.to_string(),
+                        other => other.as_str().unwrap().to_string(),
+                    };
                     config.seed = HEX
                         .decode(val.as_bytes())
                         .expect("seed value invalid; 'seed' must be a valid hex value");
